@@ -190,7 +190,17 @@ func runScenario(sc scenario) {
 		}
 		if had {
 			initial = previous
-			os.WriteFile(target, []byte(previous), 0o644)
+			if fault == "target-symlink" {
+				// -o names a symbolic link to the previously generated file
+				realFile := filepath.Join(dir, "generated_real.go")
+				os.WriteFile(realFile, []byte(previous), 0o644)
+				os.Symlink(realFile, target)
+			} else {
+				os.WriteFile(target, []byte(previous), 0o644)
+			}
+		}
+		if fault == "target-symlink" {
+			fault = "none" // no fault of the environment: the model sees an ordinary run
 		}
 		args = []string{"-i", inPath, "-o", target, "-package", "p"}
 	} else {
@@ -395,9 +405,9 @@ func main() {
 	}
 
 	all := append([]input{}, inputs...)
-	nGen := 6
+	nGen := 30
 	if *tier == "thorough" {
-		nGen = 60
+		nGen = 200
 	}
 	for i := 0; i < nGen; i++ {
 		s := *seed*104729 + int64(i)
@@ -414,7 +424,7 @@ func main() {
 			all = append(all, input{fmt.Sprintf("generated-invalid-%s-%d", f[2], s), string(text)})
 		}
 	}
-	bcFaults := []string{"none", "missing-input", "target-dir-missing", "target-is-dir", "fsize-limit"}
+	bcFaults := []string{"none", "missing-input", "target-dir-missing", "target-is-dir", "target-symlink", "fsize-limit"}
 	fmFaults := []string{"none", "missing-input", "fsize-limit"}
 	if haveStrace {
 		bcFaults = append(bcFaults, "write-enospc", "write-eio", "write-kill", "fsize-kill")
@@ -454,7 +464,7 @@ func main() {
 		"bebopc-go -i in.bop (struct A defined twice) -o out.go, out.go holding previous contents: exit 1, out.go unchanged",
 		"bebopfmt -w schema.bop with the first write(2) of the process failing with ENOSPC (strace inject): exit 1, schema.bop unchanged")
 	st.DistinctNontrivial = len(distinct)
-	st.Rule = "tools built from the current tree; inputs: 5 fixed (valid, unparsable x2, validation-failing x2) + Lean-generated valid and single-error schemas; bebopc-go faults: none, missing input, target in a missing directory, target is a directory, file-size limit (the write stops after 512 bytes and fails with EFBIG), first write(2) failing with ENOSPC / EIO, SIGKILL on entry to the first write, SIGKILL after a 512-byte partial write (strace inject), each with and without a previous target; bebopfmt -w faults: the same except the two target-directory ones. Per run: exit status vs report, target before/after, success => bytes equal the in-process Generate / Format output and (bebopfmt) same schema; model answer compared. distinct = distinct (tool, input, fault, target state)"
+	st.Rule = "tools built from the current tree; inputs: 5 fixed (valid, unparsable x2, validation-failing x2) + Lean-generated valid and single-error schemas; bebopc-go faults: none, missing input, target in a missing directory, target is a directory, target is a symbolic link to the previous output, file-size limit (the write stops after 512 bytes and fails with EFBIG), first write(2) failing with ENOSPC / EIO, SIGKILL on entry to the first write, SIGKILL after a 512-byte partial write (strace inject), each with and without a previous target; bebopfmt -w faults: the same except the two target-directory ones. Per run: exit status vs report, target before/after, success => bytes equal the in-process Generate / Format output and (bebopfmt) same schema; model answer compared. distinct = distinct (tool, input, fault, target state)"
 	res := map[string]interface{}{"engine": "cli", "seed": *seed, "tier": *tier,
 		"stats": map[string]interface{}{"C19": st}, "failures": fails, "strace": haveStrace}
 	b, _ := json.MarshalIndent(res, "", " ")
